@@ -1,5 +1,35 @@
-import Driver.Proto
+import Driver.Framing
 namespace DriverC07
-/-- stub: property not yet claimed -/
-def handle (_case _obs : List String) : String × String := ("unclaimed", "fail:unclaimed")
+open Proto Framing DriverFraming
+
+/-- longest prefix of the input's frames that are valid (flag, limit, decompressible, decodable) -/
+def validPrefix (c : DecCase) : List Bytes :=
+  let frs := (Spec.Framing.split (dataOf c.evs)).1
+  let limit := c.cfg.maxSize.getD (4 * 1024 * 1024)
+  let rec go : List (UInt8 × Bytes) → List Bytes
+    | [] => []
+    | fp :: r =>
+      if fp.2.length > limit then [] else
+      if fp.1 = 1 ∧ c.cfg.enc.isNone then [] else
+      match payloadMsg c.tab fp with
+      | some m => if m.head? = some 255 then [] else m :: go r
+      | none => []
+  go frs
+
+def afterFirstErr : List String → List String
+  | [] => []
+  | t :: r => if tokKind t = 'e' then r else afterFirstErr r
+
+/-- C07 verdict: never panics/hangs; every message yielded is a correctly framed message of the
+input, in order (a prefix of the valid frames); the first error is final. -/
+def handle (case obs : List String) : String × String :=
+  match model case, parseDecCase case with
+  | some m, some c =>
+    let msgs := obsMsgs obs
+    let vp := validPrefix c
+    (m, verdict [("no-panic-no-hang", !obs.any isBad),
+                 ("every-poll-completes", obs.length == c.npolls),
+                 ("messages-are-valid-prefix-of-input", msgs.length ≤ vp.length && vp.take msgs.length == msgs),
+                 ("first-error-final", (afterFirstErr obs).all (fun t => t = "n"))])
+  | _, _ => bad
 end DriverC07
